@@ -128,14 +128,16 @@ def gen(r):
     flows = [gen_flow(r, i) for i in range(nf)]
     for f in flows[1:]:
         # sibling transfers that differ only in the method / only in the endpoint / only in the query
-        if r.random() < 0.35:
+        if r.random() < 0.5:
             twin = flows[0]
-            which = r.choice(["method", "endpoint", "query"])
+            which = r.choice(["method", "endpoint", "endpoint", "query"])
             if which == "method" and f["method"] != twin["method"] and f["method"] != 1 and twin["method"] != 1:
                 f["ep"], f["query"], f["rlen"] = twin["ep"], twin["query"], twin["rlen"]
-            elif which == "endpoint" and f["method"] == twin["method"]:
+            elif which == "endpoint":
                 f["query"], f["rlen"] = twin["query"], twin["rlen"]
-                f["ep"] = (twin["ep"] + 1) % 3
+                # endpoints 0 and 1 share their IP address and differ only in the port
+                f["ep"] = {0: 1, 1: 0, 2: r.choice([0, 1])}[twin["ep"]]
+                f["method"] = twin["method"]
             elif which == "query" and f["method"] == twin["method"]:
                 f["ep"] = twin["ep"]
     # interleave
